@@ -25,8 +25,6 @@ PROPS_FILE = 'Props/C02.v'
 TOL = Fraction(1, 10 ** 8)          # linear predictor / partial effects: 1e-8 * (1 + sum_j max(1,|col_j|) |coef_j|)
 TOL_GRID = Fraction(1, 10 ** 12)    # grids: 1e-12 * max(1, |ek0|, |ek1|, |value|)
 REL_MU = Fraction(1, 10 ** 12)
-S7 = 'S7-tensor-by-default-grid'
-S7B = 'S7b-meshgrid-by-dropped'
 
 HEADER = """From Coq Require Import List ZArith QArith Bool.
 From PG Require Import Base.Ops Base.Vec Model.BSpline Model.C03Check Model.Columns Model.Predict Model.C02Check.
@@ -291,9 +289,14 @@ def probe_grid(res, gam, scn, i, t, viol, rng):
             if by is not None and j == by:
                 if not np.all(G[:, j] == 1.0):
                     viol('default grid: by-variable column is not set to one', sorted(set(G[:, j].tolist())), [1.0],
-                         finding=S7 if (t.istensor and np.all(G[:, j] == 0.0)) else None, term=i, n=n)
+                         term=i, n=n)
             elif not np.all(G[:, j] == 0.0):
                 viol('default grid: a column the term does not read is not zero', G[:, j].tolist(), 0.0, term=i, n=n)
+        # meshgrid=True: what partial_dependence evaluates on is _flatten_mesh(mesh): same rows as the meshgrid=False grid
+        F = np.asarray(gam._flatten_mesh(Ms, term=i))
+        if F.shape != G.shape or not np.array_equal(F, G):
+            viol('_flatten_mesh(generate_X_grid(term, meshgrid=True)) differs from generate_X_grid(term, meshgrid=False) (by-column / other columns)',
+                 F.tolist(), G.tolist(), term=i, n=n)
     # partial dependence without X: evaluated on the default grid (n = 100 per marginal) with the by-variable at one
     if k <= 2:
         G = np.asarray(gam.generate_X_grid(term=i))
@@ -305,18 +308,14 @@ def probe_grid(res, gam, scn, i, t, viol, rng):
         got = np.asarray(gam.partial_dependence(term=i), dtype=float)
         gotm = np.asarray(gam.partial_dependence(term=i, meshgrid=True), dtype=float)
         res.case(('default-pdep', res.evaluations))
-        nz = np.abs(want).max() > 0
         if got.shape != want.shape or not np.allclose(got, want, rtol=0, atol=tol):
             viol('partial_dependence(term) without X is not the term evaluated on its default grid with the by-variable at one',
                  dict(max_abs_observed=float(np.abs(got).max()), max_abs_expected=float(np.abs(want).max())), 'equal',
-                 finding=S7 if (t.istensor and by is not None and nz and np.all(got == 0.0)) else None, term=i)
+                 term=i)
         if gotm.shape != (100,) * k or not np.allclose(gotm.ravel(), want, rtol=0, atol=tol):
-            f = None
-            if by is not None and nz and np.all(gotm == 0.0):
-                f = S7 if t.istensor else S7B
             viol('partial_dependence(term, meshgrid=True) without X is not the term evaluated on its default mesh with the by-variable at one',
                  dict(shape=list(gotm.shape), max_abs_observed=float(np.abs(gotm).max()), max_abs_expected=float(np.abs(want).max())), 'equal, shape (100,)*k',
-                 finding=f, term=i)
+                 term=i)
 
 
 # ----------------------------------------------------------------------------- correspondence cases
